@@ -259,6 +259,11 @@ def gen_case(rng):
     return classes, [p1, p2], [list(lo), list(hi)]
 
 
+def plot_utils_clip():
+    from plotink import plot_utils
+    return plot_utils.clip_segment
+
+
 def one_case(ctx, mon, segment, bounds):
     from plotink import plot_utils
     mon.code_calls = 0
@@ -276,6 +281,10 @@ def run(ctx):
     for _ in range(n):
         if not ctx.alive():
             break
+        if rng.random() < 0.005:
+            from ..gen_stepper import failed_call
+            failed_call(rng, plot_utils_clip(), 2)
+            ctx.tag("history: after a failed call (malformed arguments)")
         classes, segment, bounds = gen_case(rng)
         rect = ((F(bounds[0][0]), F(bounds[0][1])), (F(bounds[1][0]), F(bounds[1][1])))
         ra = region((F(segment[0][0]), F(segment[0][1])), rect)
@@ -324,6 +333,7 @@ def run(ctx):
                 "grazing (inside only within tolerance): either answer accepted"):
         ctx.need(cls, 100)
     ctx.need("monitor:clip_segment evaluated", 20_000)
+    ctx.need("history: after a failed call (malformed arguments)", 50)
     contracts.uninstall_all()
 
 
